@@ -64,6 +64,7 @@ func main() {
 		extractGovPriority(contracts, genDir)
 		if exe := byPath["github.com/meshplus/bitxhub/internal/executor"]; exe != nil {
 			extractContractMethods(exe, contracts, genDir)
+			extractFailedEvents(exe, genDir)
 		} else {
 			broken("contractMethods", "package internal/executor not loaded")
 		}
